@@ -29,3 +29,15 @@ package schemaClient
 //@   internal success_memoised: called(GetSchema) && r1 == nil ==> dyn(callres(LoadOrStore, 0, 0), *schemaIndexEntry).ready &&
 //@            dyn(callres(LoadOrStore, 0, 0), *schemaIndexEntry).schemaRsp == r0
 //@   internal memo_hit_asks_nobody: called(LoadOrStore) && callres(LoadOrStore, 0, 1) && old(dyn(callres(LoadOrStore, 0, 0), *schemaIndexEntry).ready) ==> !called(GetSchema)
+
+// ---------------------------------------------------------------------------
+// C11: element sequence -> path. After a list name the following elements are taken as the values of the list keys,
+// one per key, in the order of the schema's key list.
+//@ func (*SchemaClientBoundImpl).ToPath
+//@   props C11
+//@   requires scb != nil && scb.schema != nil && scb.schemaClient != nil
+//@   ensures path_or_error: (r1 == nil) == (r0 != nil)
+//@   loop 0 invariant p != nil && 0 <= i && i <= len(path)
+//@   loop 1 invariant key_values_are_consecutive_elements: i == $entry_i + $n
+//@   loop 1 invariant key_values_stay_inside_the_path: i < len(path) || $n == 0
+//@   loop 1 invariant key_named_by_schema_takes_next_element: $n > 0 ==> present(newPathElem.Key, schemaKeys[$i].GetName()) && newPathElem.Key[schemaKeys[$i].GetName()] == path[i]
